@@ -9,6 +9,8 @@
 //!   `E <binding>* T <tree>`             evaluate / the C08 two-order oracle; bindings `k:<hex>=<v>` known now,
 //!                                       `l:<hex>=<v>` declared now and valued later, `r:<hex>` register
 //!   `A <binding>* T <tree>`             end-to-end: `.du32` of the expression, `.const` before vs after
+//!   `X <statement text>`                C07 text stream: parse the statement with the real parser, evaluate its argument,
+//!                                       compare with the value under the DOCUMENTED precedence (+ `.du32` bytes)
 use std::collections::BTreeMap;
 use std::path::PathBuf;
 use std::sync::Arc;
@@ -20,7 +22,7 @@ use trion::asm::directive::DirectiveList;
 use trion::asm::instr::InstructionSet;
 use trion::asm::simplify::{evaluate, simplify, EvalError, Evaluation, OverflowError, SimplifyError};
 use trion::asm::Context;
-use trion::text::parse::{Argument, ArgumentType};
+use trion::text::parse::{Argument, ArgumentType, ElementValue, Parser};
 use trion::text::token::Number;
 
 use crate::common::*;
@@ -907,6 +909,431 @@ fn assemble(text: &str) -> Result<Vec<u8>, String>
 }
 
 // ---------------------------------------------------------------------------------------------------------
+// C07 text stream: expressions as SOURCE TEXT, grouped by the precedence table of the README
+// (highest first: unary - !  |  * / %  |  + -  |  << >>  |  &  |  ^  |  |   — all binary operators left associative).
+// Nothing here looks at the crate's operator.rs: the table below is the documentation's.
+
+#[derive(Clone, Copy, Debug, PartialEq)]
+enum Form {Dec, Hex, HexUp, Bin, Oct, Chr}
+
+/// an expression as it is WRITTEN: literal spellings and redundant parentheses are part of it
+#[derive(Clone, Debug)]
+enum X
+{
+	Lit(i64, Form),
+	Neg(Box<X>),
+	Not(Box<X>),
+	Bin(u8, Box<X>, Box<X>),
+	/// parentheses that the precedence table does not require
+	Par(Box<X>),
+}
+
+/// README: "in order of highest precedence first"
+fn doc_prec(op: u8) -> u8
+{
+	match op
+	{
+		MUL | DIV | MOD => 6,
+		ADD | SUB => 5,
+		SHL | SHR => 4,
+		AND => 3,
+		XOR => 2,
+		_ => 1, // OR
+	}
+}
+
+const CHARS: [char; 6] = ['A', 'z', '0', '~', '#', 'é'];
+
+impl X
+{
+	/// the tree the text denotes under the documented precedence
+	fn tree(&self) -> T
+	{
+		match self
+		{
+			X::Lit(v, _) => T::C(*v),
+			X::Neg(a) => T::Neg(Box::new(a.tree())),
+			X::Not(a) => T::Not(Box::new(a.tree())),
+			X::Bin(op, l, r) => bin(*op, l.tree(), r.tree()),
+			X::Par(a) => a.tree(),
+		}
+	}
+
+	/// binding strength of the outermost construct (atoms and unary operators bind tightest)
+	fn prec(&self) -> u8
+	{
+		match self
+		{
+			X::Bin(op, ..) => doc_prec(*op),
+			_ => 7,
+		}
+	}
+
+	/// text with exactly the parentheses the documented table requires (plus the explicit `Par` ones);
+	/// `sp` selects the spacing style
+	fn render(&self, sp: u8, out: &mut String)
+	{
+		match self
+		{
+			X::Lit(v, form) => match form
+			{
+				Form::Dec => out.push_str(&format!("{v}")),
+				Form::Hex => out.push_str(&format!("0x{v:x}")),
+				Form::HexUp => out.push_str(&format!("0x{v:X}")),
+				Form::Bin => out.push_str(&format!("0b{v:b}")),
+				Form::Oct => out.push_str(&format!("0o{v:o}")),
+				Form::Chr => {out.push('\''); out.push(char::from_u32(*v as u32).unwrap()); out.push('\'');},
+			},
+			X::Neg(a) | X::Not(a) =>
+			{
+				out.push(if matches!(self, X::Neg(_)) {'-'} else {'!'});
+				if sp == 2 {out.push(' ');}
+				// the operand of a unary operator needs parentheses exactly when it is a binary operation
+				if a.prec() < 7 {out.push('('); a.render(sp, out); out.push(')');} else {a.render(sp, out);}
+			},
+			X::Bin(op, l, r) =>
+			{
+				let p = doc_prec(*op);
+				// left associative: the left operand may be of the same level, the right one must bind tighter
+				if l.prec() < p {out.push('('); l.render(sp, out); out.push(')');} else {l.render(sp, out);}
+				let o = match *op {SHL => "<<", SHR => ">>", o => OPS[o as usize]};
+				if sp != 1 {out.push(' ');}
+				out.push_str(o);
+				if sp != 1 {out.push(' ');}
+				if r.prec() <= p {out.push('('); r.render(sp, out); out.push(')');} else {r.render(sp, out);}
+			},
+			X::Par(a) => {out.push('('); if sp == 2 {out.push(' ');} a.render(sp, out); out.push(')');},
+		}
+	}
+
+	fn text(&self, sp: u8) -> String
+	{
+		let mut s = String::new();
+		self.render(sp, &mut s);
+		s
+	}
+}
+
+fn xlit(rng: &mut Rng, v: i64) -> X
+{
+	debug_assert!(v >= 0);
+	X::Lit(v, *rng.pick(&[Form::Dec, Form::Dec, Form::Hex, Form::HexUp, Form::Bin, Form::Oct]))
+}
+
+fn gen_xlit(rng: &mut Rng) -> X
+{
+	if rng.chance(1, 10)
+	{
+		return X::Lit(*rng.pick(&CHARS) as i64, Form::Chr);
+	}
+	let v = match rng.below(10)
+	{
+		0 => 0,
+		1 => 1,
+		2 | 3 => {let p = 1i64 << rng.below(63); (p + rng.range(-1, 1)).max(0)},
+		4 => if rng.chance(1, 3) {*rng.pick(&[i64::MAX, i64::MAX - 1])} else {rng.range(0, 66)},
+		_ => rng.range(0, 12),
+	};
+	xlit(rng, v)
+}
+
+fn gen_x(rng: &mut Rng, depth: u32) -> X
+{
+	if depth == 0 || rng.chance(1, 6) {return gen_xlit(rng);}
+	match rng.below(16)
+	{
+		0 | 1 => X::Neg(Box::new(gen_x(rng, depth - 1))),
+		2 => X::Not(Box::new(gen_x(rng, depth - 1))),
+		3 => X::Par(Box::new(gen_x(rng, depth - 1))),
+		4 | 5 =>
+		{
+			let op = if rng.chance(1, 2) {SHL} else {SHR};
+			let k = rng.range(0, 20);
+			let count = xlit(rng, k);
+			X::Bin(op, Box::new(gen_x(rng, depth - 1)), Box::new(count))
+		},
+		_ => X::Bin(rng.below(10) as u8, Box::new(gen_x(rng, depth - 1)), Box::new(gen_x(rng, depth - 1))),
+	}
+}
+
+/// what the real front end + evaluator make of one statement text
+struct Parsed
+{
+	/// the argument tree as the real parser built it
+	tree: Option<T>,
+	simp: Out,
+	eval: Out,
+}
+
+fn eval_error_out(e: EvalError) -> Out
+{
+	match e
+	{
+		EvalError::NoSuchVariable{name, ..} => Out::Err(format!("nosuch {}", hex(name.as_ref().as_bytes()))),
+		EvalError::BadType{kind, op} => Out::Err(format!("badtype {} {}", ty_name(kind), ty_name(op))),
+		EvalError::Overflow(e) => Out::Err(format!("overflow {}", ov_name(&e))),
+	}
+}
+
+/// parse `stmt` (one directive or instruction with one argument) with the real `Parser` and run the real
+/// `simplify` and `evaluate` on the parsed argument itself
+fn run_text(stmt: &str) -> Result<Parsed, String>
+{
+	let directives = DirectiveList::generate();
+	let r = guarded(||
+	{
+		let mut parser = Parser::new(stmt.as_bytes());
+		let element = match parser.next()
+		{
+			Some(Ok(e)) => e,
+			Some(Err(e)) => return Err(format!("parse error {}:{}: {:?}", e.line, e.col, e.value)),
+			None => return Err("no statement".to_owned()),
+		};
+		let mut args = match element.value
+		{
+			ElementValue::Directive{args, ..} | ElementValue::Instruction{args, ..} => args,
+			ElementValue::Label(..) => return Err("parsed as a label".to_owned()),
+		};
+		if args.len() != 1 {return Err(format!("{} arguments", args.len()));}
+		let mut arg = args.pop().unwrap();
+		let tree = T::from_arg(&arg);
+		let mut arg2 = arg.clone();
+		let simp = match guarded(|| {let r = simplify(&mut arg2); (r, T::from_arg(&arg2))})
+		{
+			Ok((Ok(changed), tree)) => Out::Ok{changed, cause: None, tree},
+			Ok((Err(SimplifyError::BadType{kind, op}), _)) => Out::Err(format!("badtype {} {}", ty_name(kind), ty_name(op))),
+			Ok((Err(SimplifyError::Overflow(e)), _)) => Out::Err(format!("overflow {}", ov_name(&e))),
+			Err(p) => Out::Panic(p),
+		};
+		let ctx = Context::new(&Arm6M, &directives);
+		let eval = match guarded(|| {let r = evaluate(&mut arg, &ctx); (r, T::from_arg(&arg))})
+		{
+			Ok((Ok(Evaluation::Complete{changed}), tree)) => Out::Ok{changed, cause: None, tree},
+			Ok((Ok(Evaluation::Deferred{changed, cause}), tree)) => Out::Ok{changed, cause: Some(cause.as_ref().to_owned()), tree},
+			Ok((Err(e), _)) => eval_error_out(e),
+			Err(p) => Out::Panic(p),
+		};
+		Ok(Parsed{tree: Some(tree), simp, eval})
+	});
+	match r
+	{
+		Ok(r) => r,
+		Err(p) => Err(format!("PANIC: {p}")),
+	}
+}
+
+/// X-case. `want` = value demanded by the documented precedence (None on replay: then only the byte-level and
+/// simplify/evaluate agreement can be checked, plus the value re-derived from the harness's own reading of the text)
+fn check_text(cx: &mut Cx, stmt: &str, expr: &X, e2e: bool, collect: &mut Vec<T>)
+{
+	let input = format!("X {stmt}");
+	let doc_tree = expr.tree();
+	let want = spec(&doc_tree);
+	let parsed = match run_text(stmt)
+	{
+		Ok(p) => p,
+		Err(e) =>
+		{
+			cx.report.oracle_fail(input, format!("a documented expression is not accepted: {e}"));
+			cx.report.case(None);
+			return;
+		},
+	};
+	let ptree = parsed.tree.clone().unwrap();
+	cx.report.hit(if ptree == doc_tree {"text:grouping as documented"} else {"text:grouping differs from the documentation"});
+	for (which, o) in [("simplify", &parsed.simp), ("evaluate", &parsed.eval)]
+	{
+		match (want, o)
+		{
+			(Spec::Open, _) => cx.report.hit("text:open-corner"),
+			(Spec::Val(v), Out::Ok{tree: T::C(w), cause: None, ..}) if *w == v => cx.report.hit("text:value"),
+			(Spec::Error, Out::Err(e)) if e.starts_with("overflow") => cx.report.hit("text:error"),
+			(w, o) => cx.report.oracle_fail(input.clone(), format!(
+				"{which}: by the documented precedence `{}` denotes {} = {w:?}, the implementation parses it as {} and gives {}",
+				expr.text(0), doc_tree.text(), ptree.text(), o.eval_text())),
+		}
+	}
+	// end to end: the statement as the data of a `.du32`
+	if e2e
+	{
+		if let Spec::Val(v) = want
+		{
+			if (0..=u32::MAX as i64).contains(&v)
+			{
+				let body = stmt.splitn(2, ' ').nth(1).unwrap_or("");
+				let prog = format!(".addr 0;\n.du32 {body}\n");
+				match guarded(|| assemble(&prog))
+				{
+					Ok(Ok(bytes)) if bytes == (v as u32).to_le_bytes() => cx.report.hit("text:e2e bytes"),
+					Ok(r) => cx.report.oracle_fail(input.clone(), format!("`.du32` of the expression must emit {} (value {v}), assembling gives {:?}",
+						hex(&(v as u32).to_le_bytes()), r.map(|b| hex(&b)))),
+					Err(p) => cx.report.oracle_fail(input.clone(), format!("assembling panicked: {p}")),
+				}
+			}
+		}
+		else if want == Spec::Error
+		{
+			let body = stmt.splitn(2, ' ').nth(1).unwrap_or("");
+			let prog = format!(".addr 0;\n.du32 {body}\n");
+			match guarded(|| assemble(&prog))
+			{
+				Ok(Err(_)) => cx.report.hit("text:e2e diagnostic"),
+				Ok(Ok(bytes)) => cx.report.oracle_fail(input.clone(), format!("the expression is an arithmetic error but `.du32` emits {}", hex(&bytes))),
+				Err(p) => cx.report.oracle_fail(input.clone(), format!("assembling panicked: {p}")),
+			}
+		}
+	}
+	let key = parsed.eval.eval_text();
+	cx.report.case(Some(&key));
+	collect.push(ptree);
+}
+
+fn statement(i: u64, expr_text: &str) -> String
+{
+	match i % 3
+	{
+		0 => format!(".du32 {expr_text};"),
+		1 => format!("X {expr_text};"),
+		_ => format!(".dhex {expr_text};"),
+	}
+}
+
+/// every ordered (parent, child) operator pair on either side, unary operators above / below every binary one,
+/// then random deeper expressions
+fn run_text_stream(cx: &mut Cx)
+{
+	let mut parsed_trees: Vec<T> = Vec::new();
+	let triples: [(i64, i64, i64); 6] = [(7, 4, 2), (1, 7, 4), (100, 3, 5), (6, 2, 1), (13, 5, 3), (2, 9, 6)];
+	let mut n = 0u64;
+	let mut cases: Vec<X> = Vec::new();
+	for parent in 0..10u8
+	{
+		for child in 0..10u8
+		{
+			for &(a, b, c) in triples.iter()
+			{
+				let (la, lb, lc) = (xlit(&mut cx.rng, a), xlit(&mut cx.rng, b), xlit(&mut cx.rng, c));
+				// child on the left / on the right of the parent
+				cases.push(X::Bin(parent, Box::new(X::Bin(child, Box::new(la.clone()), Box::new(lb.clone()))), Box::new(lc.clone())));
+				cases.push(X::Bin(parent, Box::new(la), Box::new(X::Bin(child, Box::new(lb), Box::new(lc)))));
+			}
+		}
+		for &(a, b, _) in triples.iter()
+		{
+			let (la, lb) = (xlit(&mut cx.rng, a), xlit(&mut cx.rng, b));
+			let un = |neg: bool, x: X| if neg {X::Neg(Box::new(x))} else {X::Not(Box::new(x))};
+			for neg in [true, false]
+			{
+				cases.push(X::Bin(parent, Box::new(un(neg, la.clone())), Box::new(lb.clone())));
+				cases.push(X::Bin(parent, Box::new(la.clone()), Box::new(un(neg, lb.clone()))));
+				cases.push(un(neg, X::Bin(parent, Box::new(la.clone()), Box::new(lb.clone()))));
+				cases.push(un(neg, un(!neg, la.clone())));
+			}
+		}
+	}
+	cx.report.hit_n("text: operator pair cases (all ordered pairs, both sides, unary above/below)", cases.len() as u64);
+	for x in cases.iter()
+	{
+		for sp in 0..2u8
+		{
+			let stmt = statement(n, &x.text(sp));
+			check_text(cx, &stmt, x, true, &mut parsed_trees);
+			n += 1;
+		}
+	}
+	let nrand = if cx.thorough() {300_000} else {25_000};
+	for i in 0..nrand
+	{
+		let depth = 1 + (i % 6) as u32;
+		let x = gen_x(&mut cx.rng, depth);
+		let sp = (cx.rng.below(3)) as u8;
+		let stmt = statement(n, &x.text(sp));
+		check_text(cx, &stmt, &x, i % 8 == 0, &mut parsed_trees);
+		if i % 5000 == 3 {cx.report.sample(format!("text `{stmt}` -> {}", run_text(&stmt).map(|p| p.eval.eval_text()).unwrap_or_else(|e| e)));}
+		n += 1;
+	}
+	cx.report.hit_n("text: random expressions", nrand);
+	// the parsed trees also go through the model correspondence
+	parsed_trees.sort_by_key(|t| t.text());
+	parsed_trees.dedup();
+	run_simplify_batch(cx, &parsed_trees);
+}
+
+/// replay of an X-case: the harness re-reads the text with its own reader for the documented grammar
+fn doc_read(text: &str) -> Option<X>
+{
+	struct P<'a> {s: &'a [u8], i: usize}
+	impl<'a> P<'a>
+	{
+		fn ws(&mut self) {while self.i < self.s.len() && (self.s[self.i] as char).is_ascii_whitespace() {self.i += 1;}}
+		fn eat(&mut self, t: &str) -> bool
+		{
+			self.ws();
+			if self.s[self.i..].starts_with(t.as_bytes()) {self.i += t.len(); true} else {false}
+		}
+		fn atom(&mut self) -> Option<X>
+		{
+			self.ws();
+			if self.eat("-") {return Some(X::Neg(Box::new(self.atom()?)));}
+			if self.eat("!") {return Some(X::Not(Box::new(self.atom()?)));}
+			if self.eat("(")
+			{
+				let x = self.level(1)?;
+				if !self.eat(")") {return None;}
+				return Some(X::Par(Box::new(x)));
+			}
+			if self.eat("'")
+			{
+				let rest = std::str::from_utf8(&self.s[self.i..]).ok()?;
+				let c = rest.chars().next()?;
+				self.i += c.len_utf8();
+				if !self.eat("'") {return None;}
+				return Some(X::Lit(c as i64, Form::Chr));
+			}
+			let (radix, form, skip) = if self.s[self.i..].starts_with(b"0x") {(16, Form::Hex, 2)}
+				else if self.s[self.i..].starts_with(b"0b") {(2, Form::Bin, 2)}
+				else if self.s[self.i..].starts_with(b"0o") {(8, Form::Oct, 2)}
+				else {(10, Form::Dec, 0)};
+			self.i += skip;
+			let start = self.i;
+			while self.i < self.s.len() && (self.s[self.i] as char).is_digit(radix) {self.i += 1;}
+			let v = i64::from_str_radix(std::str::from_utf8(&self.s[start..self.i]).ok()?, radix).ok()?;
+			Some(X::Lit(v, form))
+		}
+		/// binary operators of documented level >= `min`, left associative
+		fn level(&mut self, min: u8) -> Option<X>
+		{
+			if min > 6 {return self.atom();}
+			let mut lhs = self.level(min + 1)?;
+			loop
+			{
+				self.ws();
+				let ops: &[(&str, u8)] = match min
+				{
+					6 => &[("*", MUL), ("/", DIV), ("%", MOD)],
+					5 => &[("+", ADD), ("-", SUB)],
+					4 => &[("<<", SHL), (">>", SHR)],
+					3 => &[("&", AND)],
+					2 => &[("^", XOR)],
+					_ => &[("|", OR)],
+				};
+				let mut found = None;
+				for (t, op) in ops {if self.eat(t) {found = Some(*op); break;}}
+				match found
+				{
+					Some(op) => {let rhs = self.level(min + 1)?; lhs = X::Bin(op, Box::new(lhs), Box::new(rhs));},
+					None => return Some(lhs),
+				}
+			}
+		}
+	}
+	let mut p = P{s: text.as_bytes(), i: 0};
+	let x = p.level(1)?;
+	p.ws();
+	if p.i == p.s.len() {Some(x)} else {None}
+}
+
+// ---------------------------------------------------------------------------------------------------------
 // generators
 
 /// the 40 boundary operands of C07
@@ -1151,6 +1578,22 @@ fn run_simplify_batch(cx: &mut Cx, trees: &[T])
 
 fn replay(cx: &mut Cx, input: &str)
 {
+	if let Some(stmt) = input.strip_prefix("X ")
+	{
+		// statement text: `<.name | name> <expr>;`
+		let body = stmt.trim_start().splitn(2, ' ').nth(1).unwrap_or("").trim_end();
+		match body.strip_suffix(';').and_then(doc_read)
+		{
+			Some(x) =>
+			{
+				let mut trees = Vec::new();
+				check_text(cx, stmt, &x, true, &mut trees);
+				run_simplify_batch(cx, &trees);
+			},
+			None => cx.report.oracle_fail(input.to_owned(), "cannot read the statement text"),
+		}
+		return;
+	}
 	let words: Vec<&str> = input.split(' ').filter(|w| !w.is_empty()).collect();
 	let bad = |cx: &mut Cx| cx.report.oracle_fail(input.to_owned(), "unrecognised replay input");
 	match words.first().copied()
@@ -1181,7 +1624,12 @@ fn run_c07(cx: &mut Cx)
 	cx.report.rule = "every binary operator at every pair of 40 boundary operands (40x40x10, exhaustive) and negate / not at each; \
 random closed trees over literals {0, +-1, 2^k, 2^k+-1, i64 extremes, small} of depth <= 8. Each tree: real simplify and evaluate vs the model \
 (exact tree, changed flag, error kind), the Lean specification Arith.eval vs the harness oracle, and the oracle (i128 arithmetic per the property \
-text: value, error, or open corner) vs the implementation. non-trivial = the tree was rewritten; distinct = distinct results".to_owned();
+text: value, error, or open corner) vs the implementation. TEXT stream: expressions written as source text with exactly the parentheses the README \
+precedence table requires (unary - ! > * / % > + - > << >> > & > ^ > |, left associative) - every ordered (parent, child) operator pair on either \
+side, unary operators above and below every binary operator, random deeper expressions, literals in decimal / hex / binary / octal / character \
+form, three spacing styles - parsed by the real Parser as the argument of a directive or instruction, then real simplify / evaluate on the parsed \
+argument vs the i128 value of the tree the DOCUMENTED table assigns to the text; for a sample `.addr 0; .du32 <expr>;` through the real Context \
+must emit the little-endian value (or a diagnostic when the value is an error). non-trivial = the tree was rewritten; distinct = distinct results".to_owned();
 	let b = boundary();
 	let mut trees = Vec::new();
 	for op in 0..10u8
@@ -1205,6 +1653,7 @@ text: value, error, or open corner) vs the implementation. non-trivial = the tre
 	cx.report.hit_n("random closed trees", n);
 	for t in trees.iter().skip(16000).step_by(20011).take(8) {cx.report.sample(format!("{} -> {}", t.text(), real_simplify(t).simp_text()));}
 	run_simplify_batch(cx, &trees);
+	run_text_stream(cx);
 }
 
 fn run_c08(cx: &mut Cx)
